@@ -142,6 +142,12 @@ func execStream(c *lib.Ctx, userns bool) {
 		if mode != "none" && !net && !mount {
 			mount = true // SandboxConfig{false,false} IS NoSandbox
 		}
+		if mode == "builtin" {
+			// `plz sandbox` without the mount part but with SANDBOX_UID cannot start its command at all: its process is in a
+			// new PID namespace, /proc is only remounted together with the mount part, and os/exec then fails to write the
+			// child's uid_map ("fork/exec ...: no such file or directory"). Builds always ask for both parts.
+			mount = true
+		}
 		// the name=value list: mostly a plausible build environment, sometimes duplicates / overrides of the fixed entries
 		list := []kv{}
 		if !r.Chance(1, 12) {
@@ -167,6 +173,14 @@ func execStream(c *lib.Ctx, userns bool) {
 					continue
 				}
 				list = append(list, kv{key, val})
+			}
+		}
+		if mode == "builtin" {
+			for _, p := range list {
+				if p[0] == "SHARE_MOUNT" { // switched off by a later entry: same situation as above, take the exec path
+					list = append(list, kv{"SANDBOX_UID", ""})
+					break
+				}
 			}
 		}
 		env := []string{}
@@ -205,7 +219,7 @@ func execStream(c *lib.Ctx, userns bool) {
 			}
 			return out
 		}
-		c.Case(lib.App("CExecEnv", coqMode(mode), lib.Str(uid), lib.Bool(net), lib.Bool(mount), coqEnv(c1), coqKVs(list), coqOptEnv(r1.OK, strip(r1.Env))),
+		c.Case(lib.App("CExecEnv", coqMode(mode), lib.Str(uid), lib.Bool(net), lib.Bool(mount), coqEnv(c1), lib.Str(tmpDir), coqKVs(list), coqOptEnv(r1.OK, strip(r1.Env))),
 			js, fmt.Sprint("xe", mode, net, mount, env), len(list) > 0)
 		if len(list) == 0 {
 			c.Hist("exec_empty_list", "1") // os/exec inherits the parent: not hermetic, not a build (the map is never empty)
